@@ -66,11 +66,64 @@ func userCallbackValue(v ssa.Value) bool {
 				return false
 			}
 			v = st
+		case *ssa.FieldAddr:
+			// a function kept in a struct field: a user callback when every store into
+			// that field, anywhere in the package, stores one
+			stores := funcFieldStores(x)
+			if len(stores) == 0 {
+				return false
+			}
+			for _, sv := range stores[1:] {
+				if !userCallbackValue(sv) {
+					return false
+				}
+			}
+			v = stores[0]
 		default:
 			return false
 		}
 	}
 	return false
+}
+
+// funcFieldStores lists the values stored, anywhere in the package, into the struct field
+// that fa addresses (composite literals included: they are stores into a fresh alloc).
+func funcFieldStores(fa *ssa.FieldAddr) []ssa.Value {
+	fn := fa.Parent()
+	if fn == nil || fn.Pkg == nil {
+		return nil
+	}
+	st := deref(fa.X.Type())
+	var out []ssa.Value
+	var visit func(f *ssa.Function)
+	visit = func(f *ssa.Function) {
+		eachInstr(f, func(in ssa.Instruction) {
+			if s, ok := in.(*ssa.Store); ok {
+				if a, ok := s.Addr.(*ssa.FieldAddr); ok && a.Field == fa.Field && types.Identical(deref(a.X.Type()), st) {
+					out = append(out, s.Val)
+				}
+			}
+		})
+		for _, an := range f.AnonFuncs {
+			visit(an)
+		}
+	}
+	for _, mem := range fn.Pkg.Members {
+		switch m := mem.(type) {
+		case *ssa.Function:
+			visit(m)
+		case *ssa.Type:
+			for _, t := range []types.Type{m.Type(), types.NewPointer(m.Type())} {
+				ms := fn.Prog.MethodSets.MethodSet(t)
+				for i := 0; i < ms.Len(); i++ {
+					if mf := fn.Prog.MethodValue(ms.At(i)); mf != nil && mf.Synthetic == "" {
+						visit(mf)
+					}
+				}
+			}
+		}
+	}
+	return out
 }
 
 func runC11Stop(c *Ctx) {
